@@ -215,6 +215,17 @@ theorem rejected_mutation_is_the_only_attempt (c : Cfg) :
   simp only [decide_ignores ro ow ns ce de pol pp co pg]
   cases ro <;> cases ow <;> cases ns <;> cases ce <;> cases de <;> cases pol <;> cases pp <;> decide
 
+/-- The object vanishes between the load and the mutating call (404): again exactly the one call
+    the mode allows is attempted — in delete-if-exists mode the DELETE and nothing after it, in
+    particular NOT the create the function would do for an absent object — and the error propagates. -/
+theorem vanished_object_is_not_recreated (c : Cfg) :
+    (ResourceFn.decide c .presentVanished).1 = (ResourceFn.decide c .presentDrifted).1 ∧
+    (ResourceFn.decide c .presentVanished).1 ≠ .create ∧
+    (c.deleteIfExists = true → c.precondPass = true → ResourceFn.decide c .presentVanished = (.delete, .raised)) := by
+  obtain ⟨ro, ow, ns, ce, de, pol, pp, co, pg⟩ := c
+  simp only [decide_ignores ro ow ns ce de pol pp co pg]
+  cases ro <;> cases ow <;> cases ns <;> cases ce <;> cases de <;> cases pol <;> cases pp <;> decide
+
 /-- preconditions do not pass: no API call at all (not even the load), whatever the mode and
     whatever is in the cluster; the outcome is the precondition's own -/
 theorem precond_fail_no_api (c : Cfg) (s : Situation) (h : c.precondPass = false) :
